@@ -85,4 +85,9 @@ def run(src, tier, seed):
             res.ok(r2, '%s: mkAnd(fla, learnEqTransitivity(fla))' % g['name'])
         else:
             res.bad(r2, 'learnt-fact-not-conjoined:%s' % g['name'].split('::')[-1], fx.loc(g, c.get('ln')), '%s uses the result of learnEqTransitivity other than as a conjunct of the formula' % g['name'])
+    # ---- generic: a per-frame summary computed in a loop must summarise every element (found by the first C13 seed in MainSolver::simplifyFormulas)
+    import generic
+    r3 = res.rule('loop-summaries-accumulate', 'no Boolean that summarises the iterations of a loop (declared before it, read after it) is plainly overwritten in each iteration from the current element; '
+                  'all functions of the solver, in particular the per-frame "nothing to add" test of MainSolver::simplifyFormulas', floor=500)
+    generic.loop_summary_overwritten(fx, res, r3)
     return res
